@@ -53,7 +53,11 @@ func genC13(rt *rapid.T) c13Params {
 	p.Denom = rapid.SampledFrom([]string{"ujkl", "ujkl", "ujkl", "", "uother"}).Draw(rt, "denom")
 	p.Stipend = rapid.SampledFrom([]int{chain.AccStipend, 0, 1}).Draw(rt, "stipend")
 	p.Blocks = rapid.IntRange(1, 60).Draw(rt, "blocks")
-	p.StartHeight = rapid.SampledFrom([]int64{1, 2, 100, 5_000_000}).Draw(rt, "start")
+	if rapid.IntRange(0, 39).Draw(rt, "longRun") == 0 {
+		p.Blocks = rapid.IntRange(1000, 1100).Draw(rt, "blocksLong")
+	}
+	// heights around digit-length boundaries matter to anything keyed by a decimal height
+	p.StartHeight = rapid.SampledFrom([]int64{1, 2, 8, 95, 100, 990, 999, 1000, 1001, 9_990, 10_000, 99_995, 100_000, 999_990, 1_000_000, 5_000_000, 9_999_990}).Draw(rt, "start")
 	return p
 }
 
